@@ -1,0 +1,83 @@
+//go:build verif
+
+// Contracts for the verifier in /verif (comment-only file; contributes no declarations).
+package actions
+
+// ---------------------------------------------------------------- C07: combining actions
+// closed world of request / response actions; every action value holds a non-nil pointer of its type
+//@ ghost func reqOK(a ReqLunarAction) bool = a != nil && (typeis(a, *NoOpAction) || typeis(a, *EarlyResponseAction) || typeis(a, *ModifyRequestAction) || typeis(a, *ModifyHeadersAction) || typeis(a, *GenerateRequestAction)) && (typeis(a, *NoOpAction) ==> a.(*NoOpAction) != nil) && (typeis(a, *EarlyResponseAction) ==> a.(*EarlyResponseAction) != nil) && (typeis(a, *ModifyRequestAction) ==> a.(*ModifyRequestAction) != nil) && (typeis(a, *ModifyHeadersAction) ==> a.(*ModifyHeadersAction) != nil) && (typeis(a, *GenerateRequestAction) ==> a.(*GenerateRequestAction) != nil)
+//@ ghost func respOK(a RespLunarAction) bool = a != nil && (typeis(a, *NoOpAction) || typeis(a, *ModifyResponseAction) || typeis(a, *RetryRequestAction)) && (typeis(a, *NoOpAction) ==> a.(*NoOpAction) != nil) && (typeis(a, *ModifyResponseAction) ==> a.(*ModifyResponseAction) != nil) && (typeis(a, *RetryRequestAction) ==> a.(*RetryRequestAction) != nil)
+// the header edits an action carries (nil map: none)
+//@ ghost func reqHdrs(a ReqLunarAction) map[string]string = ite(typeis(a, *ModifyRequestAction), a.(*ModifyRequestAction).HeadersToSet, ite(typeis(a, *ModifyHeadersAction), a.(*ModifyHeadersAction).HeadersToSet, ite(typeis(a, *GenerateRequestAction), a.(*GenerateRequestAction).HeadersToSet, nil)))
+//@ ghost func carriesHdrs(a ReqLunarAction) bool = typeis(a, *ModifyRequestAction) || typeis(a, *ModifyHeadersAction) || typeis(a, *GenerateRequestAction)
+
+//@ func (*NoOpAction).ReqPrioritize
+//@   prop C07
+//@   modifies nothing
+//@   ensures[noop-is-identity] result == other
+
+//@ func (*EarlyResponseAction).ReqPrioritize
+//@   prop C07
+//@   modifies nothing
+//@   ensures[early-response-wins-unchanged] result == box(action)
+
+//@ func (*ModifyHeadersAction).ReqPrioritize
+//@   prop C07
+//@   dispatch ReqLunarAction => *NoOpAction, *EarlyResponseAction, *ModifyRequestAction, *ModifyHeadersAction, *GenerateRequestAction
+//@   requires action != nil && reqOK(other)
+//@   allocates map, ModifyHeadersAction, ModifyRequestAction, GenerateRequestAction
+//@   modifies nothing
+//@   ensures[early-response-wins-unchanged] typeis(other, *EarlyResponseAction) ==> result == other
+//@   ensures[noop-does-not-displace] typeis(other, *NoOpAction) ==> result == box(action)
+//@   ensures[result-ok] reqOK(result)
+//@   ensures[headers-merge-later-wins] carriesHdrs(other) ==> carriesHdrs(result) && mergedOf(reqHdrs(result), old(action.HeadersToSet), old(reqHdrs(other)))
+
+//@ func (*ModifyRequestAction).ReqPrioritize
+//@   prop C07
+//@   dispatch ReqLunarAction => *NoOpAction, *EarlyResponseAction, *ModifyRequestAction, *ModifyHeadersAction, *GenerateRequestAction
+//@   requires action != nil && reqOK(other)
+//@   allocates map, ModifyHeadersAction, ModifyRequestAction, GenerateRequestAction
+//@   modifies action.HeadersToSet
+//@   ensures[early-response-wins-unchanged] typeis(other, *EarlyResponseAction) ==> result == other
+//@   ensures[noop-does-not-displace] typeis(other, *NoOpAction) ==> result == box(action)
+//@   ensures[result-ok] reqOK(result)
+//@   ensures[headers-merge-later-wins] carriesHdrs(other) ==> carriesHdrs(result) && mergedOf(reqHdrs(result), old(action.HeadersToSet), old(reqHdrs(other)))
+
+//@ func (*GenerateRequestAction).ReqPrioritize
+//@   prop C07
+//@   dispatch ReqLunarAction => *NoOpAction, *EarlyResponseAction, *ModifyRequestAction, *ModifyHeadersAction, *GenerateRequestAction
+//@   requires action != nil && reqOK(other)
+//@   allocates map, ModifyHeadersAction, ModifyRequestAction, GenerateRequestAction
+//@   modifies nothing
+//@   ensures[early-response-wins-unchanged] typeis(other, *EarlyResponseAction) ==> result == other
+//@   ensures[noop-does-not-displace] typeis(other, *NoOpAction) ==> result == box(action)
+//@   ensures[result-ok] reqOK(result)
+//@   ensures[headers-merge-later-wins] carriesHdrs(other) ==> carriesHdrs(result) && mergedOf(reqHdrs(result), old(action.HeadersToSet), old(reqHdrs(other)))
+
+// ---------------------------------------------------------------- response side
+//@ func (*NoOpAction).RespPrioritize
+//@   prop C07
+//@   modifies nothing
+//@   ensures[noop-is-identity] result == other
+
+//@ func (*ModifyResponseAction).RespPrioritize
+//@   prop C07
+//@   dispatch RespLunarAction => *NoOpAction, *ModifyResponseAction, *RetryRequestAction
+//@   requires action != nil && respOK(other)
+//@   allocates map, ModifyResponseAction
+//@   modifies nothing
+//@   ensures[noop-does-not-displace] typeis(other, *NoOpAction) ==> result == box(action)
+//@   ensures[modifications-merge] typeis(other, *ModifyResponseAction) ==> typeis(result, *ModifyResponseAction) && result.(*ModifyResponseAction) != nil && mergedOf(result.(*ModifyResponseAction).HeadersToSet, action.HeadersToSet, other.(*ModifyResponseAction).HeadersToSet) && result.(*ModifyResponseAction).Body == action.Body && result.(*ModifyResponseAction).Status == action.Status
+//@   ensures[retry-taken] typeis(other, *RetryRequestAction) ==> result == other
+//@   ensures[result-ok] respOK(result)
+
+//@ func (*RetryRequestAction).RespPrioritize
+//@   prop C07
+//@   dispatch RespLunarAction => *NoOpAction, *ModifyResponseAction, *RetryRequestAction
+//@   requires action != nil && respOK(other)
+//@   allocates map, RetryRequestAction
+//@   modifies nothing
+//@   ensures[noop-does-not-displace] typeis(other, *NoOpAction) ==> result == box(action)
+//@   ensures[modification-taken] typeis(other, *ModifyResponseAction) ==> result == other
+//@   ensures[retries-merge] typeis(other, *RetryRequestAction) ==> typeis(result, *RetryRequestAction) && result.(*RetryRequestAction) != nil && mergedOf(result.(*RetryRequestAction).HeadersToSet, action.HeadersToSet, other.(*RetryRequestAction).HeadersToSet)
+//@   ensures[result-ok] respOK(result)
